@@ -46,6 +46,11 @@ CLAIMS = {
     "C12": ("Lean theorems (any scheduler, any event sequence): replacement ids are gw k, gw k+1, ... in start order, so all worker ids of a run are pairwise distinct and never reused; "
             "environment variables, fixtures, run uid and per-worker base temporary directories are validated on real runs (partial: not modelled)",
             "counter invariant by induction over the controller loop (Lean 4) ; whole-system simulation with the real execnet id allocator and real WorkerController.setup; end-to-end pytest runs recording environment, fixtures, basetemp"),
+    "C11": ("Lean theorems about the DSession model for every scheduler that is quiet while all its nodes shut down (proved for the scheduler of each of the six modes): "
+            "once a stop reason is set it stays set, every loop iteration ends with the shutdown in force and all scheduled workers told to shut down, and from then on - and in the "
+            "iteration that sets it - nothing is dispatched, whatever events follow (ready, finished, crashed workers incl. replacement within the budget); the run is interrupted iff a "
+            "reason was set; a reason is set only by --maxfail failed reports or a worker ending with fail-fast/stop/keyboard interrupt",
+            "invariant (ShutInv) + frame lemmas by case analysis over all handlers, induction over the event list, per-scheduler quietness lemmas (Lean 4) ; whole-system simulation on the real stack with the stop decision observed at the moment DSession.shouldstop is assigned"),
 }
 
 NOT_YET = {}
